@@ -605,12 +605,14 @@ type OnceSpec struct {
 	Field   string
 	RecvVar string
 	Ensures []Clause
+	FirstPre []Clause // state in which the first call finds the object (assumed on the branch that runs the function)
 }
 
 type ContractFile struct {
 	Pkg       string
 	Path      string
 	Funcs     map[string]*Contract
+	SeqFuncs  map[string]*Contract // "func@seq T": the contract used when a target is verified in the sequential reading
 	SpecFuncs map[string]*SpecFunc
 	Lemmas    []*Lemma
 	Monitors  []*Monitor
@@ -665,7 +667,7 @@ func stripComment(s string) string {
 }
 
 func parseContractFile(pkg string, path string, f *ast.File, fset *token.FileSet) *ContractFile {
-	cf := &ContractFile{Pkg: pkg, Path: path, Funcs: map[string]*Contract{}, SpecFuncs: map[string]*SpecFunc{}, Types: map[string]*TypeSpec{}}
+	cf := &ContractFile{Pkg: pkg, Path: path, Funcs: map[string]*Contract{}, SeqFuncs: map[string]*Contract{}, SpecFuncs: map[string]*SpecFunc{}, Types: map[string]*TypeSpec{}}
 	lines := specLines(f, fset)
 	// join continuation lines: a line continues the previous clause if it does not start with a keyword or a header
 	type item struct {
@@ -681,7 +683,7 @@ func parseContractFile(pkg string, path string, f *ast.File, fset *token.FileSet
 		}
 		first := strings.Fields(trim)[0]
 		first = strings.TrimSuffix(first, ":")
-		isHeader := first == "func" || first == "spec" || first == "lemma" || first == "monitor" || first == "type" || first == "once"
+		isHeader := first == "func" || first == "func@seq" || first == "spec" || first == "lemma" || first == "monitor" || first == "type" || first == "once"
 		isKw := false
 		for _, k := range clauseKeywords {
 			if first == k {
@@ -728,6 +730,13 @@ func parseContractFile(pkg string, path string, f *ast.File, fset *token.FileSet
 		kw := strings.TrimSuffix(fields[0], ":")
 		rest := strings.TrimSpace(strings.TrimPrefix(it.text, fields[0]))
 		switch kw {
+		case "func@seq":
+			reset()
+			cur = &Contract{Target: rest, Pkg: pkg, LoopInv: map[int][]Clause{}, Line: it.line, Seq: true}
+			if _, dup := cf.SeqFuncs[rest]; dup {
+				errf(it.line, "duplicate seq contract for %s", rest)
+			}
+			cf.SeqFuncs[rest] = cur
 		case "func":
 			reset()
 			cur = &Contract{Target: rest, Pkg: pkg, LoopInv: map[int][]Clause{}, Line: it.line}
@@ -801,6 +810,8 @@ func parseContractFile(pkg string, path string, f *ast.File, fset *token.FileSet
 		case "requires":
 			c := namedClause(it.line, rest)
 			switch {
+			case curOnce != nil:
+				curOnce.FirstPre = append(curOnce.FirstPre, c)
 			case curEvent != nil:
 				curEvent.Asserts = append(curEvent.Asserts, c)
 			case cur != nil:
